@@ -881,6 +881,14 @@ def check_smt2(spec, seed, solver_kwargs, pin_sets, stats=None):
     try:
         h = B.build(spec, seed, solver_kwargs=solver_kwargs)
         path = os.path.join(tmp, "problem.smt2")
+        if seed % 2 == 1:
+            # history: the export is written after a solve() on the same solver (as test_export_to_smt2 does); it must
+            # still denote the problem, not the problem plus the last model
+            try:
+                h.solver.solve()
+                stats["exported_after_solve"] = stats.get("exported_after_solve", 0) + 1
+            except Exception:
+                stats["solve_before_export_raised"] = 1
         try:
             h.solver.export_to_smt2(path)
         except Exception as exc:
